@@ -84,7 +84,9 @@ class _M:
         om = self.spec.on_miss
         if isinstance(key, tuple) and key[:1] == ('side',):
             return ('miss', key)          # the re-entrant callbacks do not recurse further
-        if om == 'reent_set':
+        if om == 'reent_same':
+            self.setitem(key, ('pre', key))
+        elif om == 'reent_set':
             self.setitem(('side', key), ('sideval', key))
         elif om == 'reent_get':
             # the callback looks another key up through the cache with get()
